@@ -7,11 +7,11 @@ PROP = {
                      "SwimVerif.Generated.FormConsts"],
     "engines": [
         # model of as_value / try_from_value against the real derive output, on written and on mutated values
-        {"name": "form-model", "crate": "core", "bin": "sv-c16", "machine": "c16",
+        {"name": "form-model", "crate": "form", "bin": "sv-c16", "machine": "c16",
          "features": [], "cases": {"quick": 24000, "thorough": 1600000}, "min_shard": 2000,
          "gen_args": ["model"], "nontrivial_min_ops": 4},
         # the three laws on the implementation alone: model round trip, two Recon reading paths, MessagePack
-        {"name": "form-paths", "crate": "core", "bin": "sv-c16", "machine": "c16", "modes": ["monitor"],
+        {"name": "form-paths", "crate": "form", "bin": "sv-c16", "machine": "c16", "modes": ["monitor"],
          "features": [], "cases": {"quick": 24000, "thorough": 800000}, "min_shard": 2000,
          "gen_args": ["paths"], "nontrivial_min_ops": 4},
     ],
